@@ -1,4 +1,4 @@
-import RlModel.Gen.Schema
+import RlModel.Gen.BuilderArms
 /-
 C17 — the plan checker: `resolve`, `check`, the `apply_proj` applier, the plan-text reader.
 Term language: `Model/PlanTm.lean`; `schema`: `Gen/Schema.lean` (generated from the source).
@@ -81,46 +81,58 @@ def isTrue : Tm → Bool
   | .leaf .tru => true
   | _ => false
 
-/-- The builder's match arms. -/
+/-- All resolution obligations of an arm (`Gen/BuilderArms.lean`, generated from the builder's
+source) are met: every listed expression resolves against the listed schema. -/
+def obligationsOk (what : String) : List (List Tm × Tm) → Verdict
+  | [] => .ok
+  | (sch, e) :: rest => (resolvesAll sch e what).and (obligationsOk what rest)
+
+/-- The builder's match arms.  Which expression is resolved against which input, which join types
+have an executor and which builders assert a `true` residual come from `Gen/BuilderArms.lean`
+(regenerated from `executor/mod.rs` on every run); the rest (which children are built, constant
+limits, the scan's columns) is written here. -/
 def check : Tm → Verdict
   | .node .scan [.leaf (.table _), cols, _] =>
     if isListNode cols && (listItems cols).all isColumn then .ok else .buildPanic "not a column"
   | .node .scan _ => .buildPanic "not a table"
   | .node .values _ => .ok
-  | .node .proj [es, c] => (check c).and (resolvesAll (schema c) es "proj")
-  | .node .filter [e, c] => (check c).and (resolvesAll (schema c) e "filter")
-  | .node .order [ks, c] => (check c).and (resolvesAll (schema c) ks "order")
+  | .node .proj [es, c] => (check c).and (obligationsOk "proj" (resolveObligations (.node .proj [es, c])))
+  | .node .filter [e, c] => (check c).and (obligationsOk "filter" (resolveObligations (.node .filter [e, c])))
+  | .node .order [ks, c] => (check c).and (obligationsOk "order" (resolveObligations (.node .order [ks, c])))
   | .node .limit [l, o, c] => (check c).and (limitOk l o)
-  | .node .topn [l, o, ks, c] => ((check c).and (limitOk l o)).and (resolvesAll (schema c) ks "topn")
+  | .node .topn [l, o, ks, c] =>
+    ((check c).and (limitOk l o)).and (obligationsOk "topn" (resolveObligations (.node .topn [l, o, ks, c])))
   | .node .join [t, on, l, r] =>
-    let base := ((check l).and (check r)).and (resolvesAll (schema l ++ schema r) on "join")
+    let base := ((check l).and (check r)).and (obligationsOk "join" (resolveObligations (.node .join [t, on, l, r])))
     match joinType? t with
     | none => base.and (.buildPanic "invalid join type")
-    | some _ => base    -- every join type since `fix:` 7d07810 (right / full outer were `todo!()`)
+    | some jt => if nlJoinTypes.contains jt then base else base.and (.buildPanic "invalid join type")
   | .node .hashjoin [t, cond, lk, rk, l, r] =>
-    let base := (((check l).and (check r)).and (resolvesAll (schema l) lk "hashjoin left keys")).and
-      (resolvesAll (schema r) rk "hashjoin right keys")
+    let kids := (check l).and (check r)
     match joinType? t with
-    | none => base.and (.buildPanic "invalid join type")
+    | none => kids.and (.buildPanic "invalid join type")
     | some jt =>
-      if jt = .semi ∨ jt = .anti then
-        if isTrue cond then base else base.and (resolvesAll (schema l ++ schema r) cond "hashjoin condition")
-      else if isTrue cond then base else base.and (.buildPanic "hashjoin residual condition is not `true`")
+      if !hashJoinTypes.contains jt then kids.and (.buildPanic "invalid join type")
+      else if jt = .semi ∨ jt = .anti then
+        (kids.and (obligationsOk "hashjoin" (hashSemiJoinObligations [t, cond, lk, rk, l, r]))).and
+          (if hashSemiJoinResidualMustBeTrue && !isTrue cond then .buildPanic "hashjoin residual condition is not `true`" else .ok)
+      else
+        (kids.and (obligationsOk "hashjoin" (hashJoinObligations [t, cond, lk, rk, l, r]))).and
+          (if hashJoinResidualMustBeTrue && !isTrue cond then .buildPanic "hashjoin residual condition is not `true`" else .ok)
   | .node .mergejoin [t, cond, lk, rk, l, r] =>
-    let base := (((check l).and (check r)).and (resolvesAll (schema l) lk "mergejoin left keys")).and
-      (resolvesAll (schema r) rk "mergejoin right keys")
+    let kids := (check l).and (check r)
     match joinType? t with
-    | none => base.and (.buildPanic "invalid join type")
+    | none => kids.and (.buildPanic "invalid join type")
     | some jt =>
-      if jt = .semi ∨ jt = .anti then base.and (.buildPanic "invalid join type")
-      else if isTrue cond then base else base.and (.buildPanic "mergejoin residual condition is not `true`")
+      if !mergeJoinTypes.contains jt then kids.and (.buildPanic "invalid join type")
+      else
+        (kids.and (obligationsOk "mergejoin" (mergeJoinObligations [t, cond, lk, rk, l, r]))).and
+          (if mergeJoinResidualMustBeTrue && !isTrue cond then .buildPanic "mergejoin residual condition is not `true`" else .ok)
   | .node .apply _ => .buildPanic "Apply is not supported in executor"
-  | .node .agg [as, c] => (check c).and (resolvesAll (schema c) as "agg")
-  | .node .hashagg [ks, as, c] =>
-    ((check c).and (resolvesAll (schema c) ks "hashagg keys")).and (resolvesAll (schema c) as "hashagg aggs")
-  | .node .sortagg [ks, as, c] =>
-    ((check c).and (resolvesAll (schema c) ks "sortagg keys")).and (resolvesAll (schema c) as "sortagg aggs")
-  | .node .window [es, c] => (check c).and (resolvesAll (schema c) es "window")
+  | .node .agg [as, c] => (check c).and (obligationsOk "agg" (resolveObligations (.node .agg [as, c])))
+  | .node .hashagg [ks, as, c] => (check c).and (obligationsOk "hashagg" (resolveObligations (.node .hashagg [ks, as, c])))
+  | .node .sortagg [ks, as, c] => (check c).and (obligationsOk "sortagg" (resolveObligations (.node .sortagg [ks, as, c])))
+  | .node .window [es, c] => (check c).and (obligationsOk "window" (resolveObligations (.node .window [es, c])))
   | .node .empty [_] => .ok
   | .node .insert [_, _, c] => check c
   | .node .delete [_, c] => check c
